@@ -292,4 +292,94 @@ theorem corrected_entry (ε σ : ℚ) (hε0 : 0 ≤ ε) (hσ0 : 0 ≤ σ) (η : 
               _ ≤ ε + lsum (AB.map η) + σ := by nlinarith
     _ = _ := by rw [sumBox_mul_right]; ring
 
+/-! ### the matrices the code builds -/
+
+/-- entry-wise deviation allowed for one population: nsub·2^{-D} (read off the axis: nOut = nsub + 1) -/
+def etaOf (D : ℕ) (ab : Axis × Axis) : ℚ := (((ab.1.nOut : ℕ) : ℚ) - 1) * (1 / 2) ^ D
+
+theorem mkAxis_dev_entry (p : Pop) (hp : PopOk p) (D : ℕ) (hdeep : DeepCov D p.c) (i : ℕ) (hi : i < p.nseq + 1)
+    (j : ℕ) (hj : j < p.nsub + 1) :
+    |(mkAxis p.c p.nseq p.nsub p.F 1).K i j - (refAxis p).K i j| ≤ ((p.nsub : ℕ) : ℚ) * (1 / 2) ^ D := by
+  obtain ⟨hc, hs, ht, hF0, hF1, N, m, e1, e2, _, hmN⟩ := hp
+  obtain ⟨he0, he1⟩ := hetErr_unit p.c hc ht
+  have heD := hetErr_le_deep p.c hc ht D hdeep
+  rw [mkAxis_K_eq p.c _ _ p.F 1 i j hi hj, refAxis_K_eq p i j hi hj]
+  have hη : 0 ≤ (m : ℚ) * hetErr p.c := by positivity
+  have key := kernel_dev_entry 1 (by norm_num) (le_refl _) (projEntry p.nseq p.nsub p.F) (callEntryE (hetErr p.c) p.nsub p.F)
+    p.nsub i j hj ((m : ℚ) * hetErr p.c) hη
+    (by intro k _; rw [e1, e2]; exact projEntry_nonneg N m p.F hF0 hF1 i k (by omega))
+    (by rw [e1, e2]; exact projEntry_rowsum N m hmN p.F hF0 hF1 i (by omega))
+    (by intro k hk j _; rw [e2]; exact callEntryE_nonneg _ he0 he1 m p.F hF0 hF1 k j (by omega))
+    (by intro k hk; rw [e2]; exact callEntryE_rowsum _ m p.F hF0 hF1 k (by omega))
+    (by intro k hk; rw [e2]; exact callEntryE_diag_ge_ind (hetErr p.c) he0 he1 m p.F hF0 hF1 k (by omega))
+  have hm0 : (0 : ℚ) ≤ (m : ℚ) := Nat.cast_nonneg _
+  have : (m : ℚ) * hetErr p.c ≤ (m : ℚ) * (2 * (1 / 2) ^ D) := mul_le_mul_of_nonneg_left heD hm0
+  have hcast : ((p.nsub : ℕ) : ℚ) = 2 * (m : ℚ) := by rw [e2]; push_cast; ring
+  rw [hcast]
+  linarith
+
+theorem deepPairs_okE (D : ℕ) (hD : 1 ≤ D) (pops : List Pop) (h : PopsDeep D pops) :
+    ∀ ab ∈ deepPairs pops, PairOkE (etaOf D ab) ab := by
+  have hpe : peAll pops = 1 := peAll_deep pops (fun p hp => ⟨(h p hp).1, (h p hp).2.1, (h p hp).2.2 0 (by omega)⟩)
+  intro ab hab
+  simp only [deepPairs, List.mem_map] at hab
+  obtain ⟨p, hp, rfl⟩ := hab
+  obtain ⟨hok, hs, hdeep⟩ := h p hp
+  have hok' := hok
+  obtain ⟨hc, hsl, ht, hF0, hF1, N, m, e1, e2, _, hmN⟩ := hok
+  rw [hpe]
+  refine ⟨rfl, rfl, ?_, refAxis_ok p hok', ?_⟩
+  · show AxisOk (mkAxis p.c p.nseq p.nsub p.F 1)
+    rw [e1, e2]
+    exact mkAxis_ok p.c hc hsl ht N m hmN p.F hF0 hF1 1 (by norm_num) (le_refl _)
+  · intro i hi j hj
+    have := mkAxis_dev_entry p hok' D hdeep i hi j hj
+    have e : etaOf D (mkAxis p.c p.nseq p.nsub p.F 1, refAxis p) = ((p.nsub : ℕ) : ℚ) * (1 / 2) ^ D := by
+      simp [etaOf, mkAxis]
+    rw [e]; exact this
+
+theorem lsum_eta_deepPairs (D : ℕ) (pops : List Pop) :
+    lsum ((deepPairs pops).map (etaOf D)) = lsum (pops.map fun p => ((p.nsub : ℕ) : ℚ) * (1 / 2) ^ D) := by
+  simp only [deepPairs, List.map_map]
+  apply lsum_map_congr
+  intro p _
+  simp [etaOf, mkAxis]
+
+theorem pops_pnc_le_sharp (D : ℕ) (hD : 2 ≤ D) (pops : List Pop) (h : PopsDeep D pops) :
+    ∀ a ∈ axesOf pops, ∀ i, 1 ≤ i → i < a.nIn → a.pnc i ≤ (1 + (D : ℚ)) * (1 / 2) ^ D := by
+  intro a ha i hi1 hi
+  simp only [axesOf, List.mem_map] at ha
+  obtain ⟨p, hp, rfl⟩ := ha
+  obtain ⟨⟨hc, hs, _, hF0, hF1, N, m, e1, e2, _, _⟩, _, hdeep⟩ := h p hp
+  have hi' : i < p.nseq + 1 := hi
+  rw [mkAxis_pnc_eq p.c _ _ p.F _ i hi', e1]
+  exact nocall_le_deep_sharp p.c hc hs D hD hdeep N p.F hF0 hF1 i hi1 (by omega)
+
+/-- **entry-wise deep-coverage bound for the matrices the code builds** -/
+theorem deep_entry_pops (pops : List Pop) (h : ∀ p ∈ pops, PopOk p ∧ lsum p.c = 1) (hD : 2 ≤ deepDepth pops)
+    (thr σ : ℚ) (hσ0 : 0 ≤ σ) (model : List ℕ → ℚ) (sim : List ℕ → List ℕ → ℚ)
+    (hcorner : ∀ i, (∀ k ∈ i, k = 0) → model i = 0)
+    (j : List ℕ) (hj : inBox ((axesOf pops).map (·.nOut)) j)
+    (hσ : ∀ i, inBox ((axesOf pops).map (·.nIn)) i → model i ≠ 0 →
+      Gen.LowPass.useSim (pncND (axesOf pops) i) thr = true → |sim i j - kerND (refAxesOf pops) i j| ≤ σ) :
+    |corrected (axesOf pops) thr model sim j - projected (refAxesOf pops) model j|
+      ≤ (deepEntryBound pops + σ) * sumBox ((axesOf pops).map (·.nIn)) (fun i => |model i|) := by
+  set D := deepDepth pops with hDdef
+  have hdeep : PopsDeep D pops := fun p hp => ⟨(h p hp).1, (h p hp).2, deepCov_of_deepDepth pops p hp⟩
+  have hpairs := deepPairs_okE D (by omega) pops hdeep
+  have hA : ∀ a ∈ axesOf pops, AxisOk a := by
+    rw [← deepPairs_fst]; exact pairE_ok1 _ _ hpairs
+  have hpnc := pops_pnc_le_sharp D hD pops hdeep
+  have hε0 : (0 : ℚ) ≤ (1 + (D : ℚ)) * (1 / 2) ^ D := by positivity
+  have hη0 : 0 ≤ lsum ((deepPairs pops).map (etaOf D)) := by
+    rw [lsum_eta_deepPairs]
+    exact lsum_map_nonneg _ _ (fun p _ => by positivity)
+  have key := corrected_entry ((1 + (D : ℚ)) * (1 / 2) ^ D) σ hε0 hσ0 (etaOf D) (deepPairs pops) hpairs hη0 thr model sim
+  rw [deepPairs_fst, deepPairs_snd] at key
+  have := key
+    (fun i hi hm => pncND_le _ hε0 (axesOf pops) hA hpnc i hi (fun hall => hm (hcorner i hall)))
+    j hj hσ
+  rw [lsum_eta_deepPairs] at this
+  simpa [deepEntryBound, ← hDdef] using this
+
 end DadiVerif.LowPass
